@@ -82,6 +82,7 @@ def run(ctx, build):
                     sort_dims = rng.random() < 0.2
                     with common.quiet():
                         u = usid.USIDataset(main, sort_dims=sort_dims)
+                        gen.Bystander.get(ctx.tmp).touch()
                     hist['sort_dims_wrapper'] += int(sort_dims)
                     sd, chosen, kinds = {}, {}, []
                     fixed = designed[si - n_rand] if si >= n_rand else None
